@@ -93,6 +93,27 @@ CHECKS = {
               "no other writer (two frozen StroquOOL exceptions). Equality of stored statistics with a replayed history is NOT observed."),
         note=TRUST + "; pull/receive_reward alternate; cells merged per attribute; sympy single-expression equivalence",
         ref="DESIGN.md section 4-C04"),
+    "C05": dict(
+        engine="E3 summaries + E7 idioms + E2 cfg",
+        technique="symbolic method summaries + sympy equivalence against the published formulas; structural recognisers for the B recursion, the descent and the refresh order",
+        text=("Static necessary conditions: the stored U-value equals the published index (T-HOO, HCT, VHCT) as a symbolic identity, "
+              "infinite for never-pulled cells, with parameters reaching it unchanged; t+, delta~, c1, tau_h match the published "
+              "formulas and HCT thresholds are rebuilt every traversal; B = U at leaves and min(U, max over all children of B) elsewhere, "
+              "bottom-up; the descent starts at the root, continues exactly under the published condition and steps to an arg-max-B "
+              "child; every U write is followed by back-propagation. NOT decided: that U/B are up to date w.r.t. the raw history at "
+              "every round."),
+        note=TRUST + "; positive parameters; sympy single-expression equivalence (numeric identity test at rational points as fallback); VHCT threshold pinned",
+        ref="DESIGN.md section 4-C05"),
+    "C06": dict(
+        engine="E2 cfg + E3 + call-site rules",
+        technique="call-graph site census + dominating-guard comparison with the published expansion predicates (sympy) + constructor scans",
+        text=("Static necessary conditions for T-HOO, HCT, VHCT: one expansion site per round, outside loops, on the handed-out "
+              "cell, leaf-guarded; pull/get_last_point add no cells; the guards dominating the expansion are exactly the published "
+              "rule (T-HOO depth bound as a symbolic identity; HCT/VHCT leaf and pulls >= tau with the C05 threshold formulas); new "
+              "cells start with zero pulls, infinite U/B and a fresh reward list; the root is split once at construction. The numeric "
+              "depth of a run is NOT decided."),
+        note=TRUST + "; positive parameters; pull/receive_reward alternate",
+        ref="DESIGN.md section 4-C06"),
 }
 
 NOT_YET = "checker under construction in this round (see DESIGN.md section 0 for the clause it will decide)"
